@@ -243,7 +243,10 @@ func genC05Case(r *rand.Rand, clients, readers, opsPer int) c05Case {
 		for i := 0; i < opsPer; i++ {
 			tag := fmt.Sprintf("c%d-%d", cl, i)
 			if cl >= clients { // reader
-				switch r.Intn(4) {
+				switch r.Intn(6) {
+				case 4, 5:
+					// a token-following reader polling one dataset's feed while it is being written
+					ops = append(ops, c05Op{Client: cl, Kind: "poll", DS: []string{c.Datasets[cl%3]}, IDs: []string{fmt.Sprint([]int{1, 2, 3, 0}[r.Intn(4)])}})
 				case 0:
 					ops = append(ops, c05Op{Client: cl, Kind: "lookup", DS: []string{c.Datasets[r.Intn(3)]}, IDs: []string{ids[r.Intn(len(ids))]}})
 				case 1:
@@ -355,6 +358,33 @@ func runC05Case(ctx *Ctx, c c05Case) {
 	vh.SetLockTracer(mon.trace)
 	defer vh.SetLockTracer(nil)
 
+	type poller struct {
+		token uint64
+		acc   []obs.Rec
+		calls int
+	}
+	pollers := make([]map[string]*poller, len(c.Ops))
+	for i := range pollers {
+		pollers[i] = map[string]*poller{}
+	}
+	pollOnce := func(cl int, d string, limit int) (int, error) {
+		p := pollers[cl][d]
+		if p == nil {
+			p = &poller{}
+			pollers[cl][d] = p
+		}
+		ds := core.Dsm.GetDataset(d)
+		ch, err := ds.GetChanges(p.token, limit, false)
+		if err != nil {
+			return 0, err
+		}
+		for _, e := range ch.Entities {
+			p.acc = append(p.acc, obs.Canon(core.Store, e))
+		}
+		p.token = ch.NextToken
+		p.calls++
+		return len(ch.Entities), nil
+	}
 	var clock int64
 	now := func() int64 { return atomic.AddInt64(&clock, 1) } // one logical clock; also orders call/return events
 	recs := make([][]*c05Rec, len(c.Ops))
@@ -381,6 +411,14 @@ func runC05Case(ctx *Ctx, c c05Case) {
 							fatal.Store(fmt.Sprintf("client %d op %s: panic: %v", cl, op.Kind, p))
 						}
 					}()
+					if op.Kind == "poll" {
+						lim := 0
+						fmt.Sscanf(op.IDs[0], "%d", &lim)
+						if _, err := pollOnce(cl, op.DS[0], lim); err != nil {
+							rec.err = err.Error()
+						}
+						return
+					}
 					c05Do(core, op, rec, &visMu, &visViol)
 				}()
 				rec.ret = now()
@@ -468,6 +506,29 @@ loop:
 			cls = "lock-leaked-by-returned-operation"
 		}
 		ctx.Out.Viol(id, prop, cls, f.(string), nil, nil, nil)
+	}
+	if prop == "C02" || prop == "C05" {
+		// every token-following reader, drained at the quiescent end, has read exactly the feed: nothing
+		// skipped, nothing twice, although it polled (also at the end of the feed) while writers committed
+		nReaders, nCalls := 0, 0
+		for cl := range pollers {
+			for d, p := range pollers[cl] {
+				for i := 0; i < 100000; i++ {
+					n, err := pollOnce(cl, d, 0)
+					if err != nil || n == 0 {
+						break
+					}
+				}
+				final, _, _ := obs.Feed(core.Store, core.Dsm.GetDataset(d), 0, nil, false)
+				nReaders++
+				nCalls += p.calls
+				if len(final) != len(p.acc) || !recsEqual(final, p.acc) {
+					ctx.Out.Viol(id, prop, "concurrent-reader-skipped-or-repeated", fmt.Sprintf("dataset %s: a token-following reader that polled while writers were committing ended with %d entries, the feed has %d (first difference at %d)", d, len(p.acc), len(final), firstRecDiff(final, p.acc)), recStr(final), recStr(p.acc), nil)
+				}
+			}
+		}
+		ctx.Out.Stat("concurrent_feed_readers", int64(nReaders))
+		ctx.Out.Stat("concurrent_feed_reader_calls", int64(nCalls))
 	}
 	if prop == "C01" || prop == "C05" || prop == "C06" {
 		c05FinalState(ctx, id, prop, core, c)
@@ -945,4 +1006,24 @@ func c05AsOfReads(ctx *Ctx, id string, core *hub.Core, c c05Case, recs [][]*c05R
 	}
 	ctx.Out.Stat("c06_concurrent_reads_judged", int64(judged))
 	ctx.Out.Stat("c06_concurrent_reads_overlapping_a_write", int64(skipped))
+}
+
+func recsEqual(a, b []obs.Rec) bool {
+	return firstRecDiff(a, b) < 0
+}
+
+func firstRecDiff(a, b []obs.Rec) int {
+	n := len(a)
+	if len(b) < n {
+		n = len(b)
+	}
+	for i := 0; i < n; i++ {
+		if !sameEnt(&a[i].Ent, &b[i].Ent) {
+			return i
+		}
+	}
+	if len(a) != len(b) {
+		return n
+	}
+	return -1
 }
